@@ -440,3 +440,11 @@ mod tests {
         assert!(refblock.__set(0, u64::MAX).is_err());
     }
 }
+
+#[cfg(qcow2_rs_verif)]
+impl RefTable {
+    /// verification hook: dirty block queue, in order
+    pub fn verif_dirty_blocks(&self) -> Vec<u32> {
+        self.dirty_blocks.borrow().iter().copied().collect()
+    }
+}
